@@ -20,6 +20,7 @@ import traceback
 from hypothesis import strategies as st
 
 from vlib.core import Campaign, hyp_campaign
+from vlib import fuzz as F
 
 PROPERTY = "C19"
 RULE = ("per platform, every path of 0-3 segments over the platform's full route vocabulary (routes, id-like, handle-like, "
@@ -442,6 +443,18 @@ def _hyp(acc, shard, nshards, seed, tier):
     return fn(acc, shard, nshards, seed, tier)
 
 
+def _fuzz_platform(data):
+    k = len(data)
+    return {"kind": "platform", "platform": "all", "url": F.text_from_bytes(data), "allow_relative_urls": bool(k & 1), "fix_common_mistakes": bool(k & 2)}
+
+
+FUZZ_TARGETS = {"platform": (_fuzz_platform, lambda c: c.get("_record", False), None)}
+FUZZ_DICT = F.URL_DICT + ["facebook.com/", "fb.me/", "m.facebook.com", "youtube.com/", "youtu.be/", "twitter.com/", "instagram.com/", "t.me/", "telegram.me/", "docs.google.com/",
+                          "drive.google.com/", "google.com/url?", "/watch?v=", "/embed/", "/shorts/", "/channel/", "/user/", "/c/", "/@", "/groups/", "/posts/", "/permalink/", "/photos/",
+                          "/videos/", "/people/", "photo.php?fbid=", "story.php?story_fbid=", "&id=", "&set=a.", "/status/", "/i/lists/", "/p/", "/reel/", "/s/", "/joinchat/",
+                          "/document/d/", "/file/d/", "/edit", "dQw4w9WgXcQ", "l.php?u=", "#!/", "list=PL1"]
+
+
 def campaigns(tier, seed):
     deep = 4 if tier == "quick" else 5
     cs = [Campaign("routes-" + p, _enum, "enumeration", exhaustive=True,
@@ -452,5 +465,7 @@ def campaigns(tier, seed):
                     bounds="%d well-formed %s URLs x %d hosts x options" % (len(SEEDS[p]), p, len(SPEC[p]["hosts"])), params={"platform": p}) for p in SPEC]
     cs.append(Campaign("nested-constructions", _nested, "enumeration", exhaustive=True,
                        bounds="routing / redirect prefixes of every platform repeated 2..1200 (quick) / ..6000 (thorough) times, default recursion limit"))
+    cs.append(Campaign("platform-coverage-guided", F.fuzz_campaign("platform", runs=(2500, 150000), max_len=80, dictionary=FUZZ_DICT), "atheris",
+                       bounds="libFuzzer over UTF-8 strings <= 80 bytes through every function of the six platform modules"))
     cs.append(Campaign("arbitrary-strings", _hyp, "hypothesis", bounds="<=7 tokens from all platforms' hosts/routes/queries + random text, through every function of the six modules"))
     return cs
